@@ -76,6 +76,11 @@ func c15Variants(src string) (base string, vs []c15Variant) {
 			vs = append(vs, c15Variant{joinWithGap(ts, g, ""), "gap:no-whitespace", gapName})
 		}
 	}
+	// a comment long enough to push the rest of the program across the lexer's 4096-byte read buffer
+	if len(ts) > 2 {
+		g := 1 + len(base)%(len(ts)-1)
+		vs = append(vs, c15Variant{joinWithGap(ts, g, " --("+strings.Repeat("c", 4090-len(base)%50)+")-- "), "gap:buffer-sized-comment", tokClass(ts[g-1]) + " | " + tokClass(ts[g])})
+	}
 	// leading / trailing layout
 	vs = append(vs, c15Variant{"\n\t " + base + " \n", "gap:outer-whitespace", "outer"})
 	vs = append(vs, c15Variant{"-- c\n" + base + " --(c)--", "gap:outer-comments", "outer"})
